@@ -359,7 +359,11 @@ func (s *Server) Serve(c net.Conn) {
 			return
 		}
 		var out []byte
-		if fk != nil && fk.Kind == FaultStatus {
+		if fk != nil && fk.Kind == FaultStatus && h.opcode == OpNoop {
+			// an error status on the no-op that terminates a quiet batch: a legal frame without a body
+			out = respBytes(h.opcode, fk.Status, h.opaque, nil, nil)
+			e.Resp = fmt.Sprintf("st:%d", fk.Status)
+		} else if fk != nil && fk.Kind == FaultStatus {
 			out = errResp(h.opcode, fk.Status, h.opaque)
 			e.Resp = fmt.Sprintf("st:%d", fk.Status)
 		} else {
